@@ -227,8 +227,8 @@ VG_CALLS = VG_ITER + [(r'^sum_reduce\|', '(*nv_sum_reduce({&0}, {1}))'),
 def vgrad_targets():
     H = 'specs/C09/vgrad.h'
     LTU = 'src/linear/function.cpp'
-    lmembers = VG_MEMBERS + [(r'^bias\|nano::linear::function_t \*', 'nv_part({&0}, NV_ROLE_BIAS, nv_nondet_int64_t())'),
-                             (r'^weights\|nano::linear::function_t \*', 'nv_part({&0}, NV_ROLE_WEIGHTS, nv_nondet_int64_t())'),
+    lmembers = VG_MEMBERS + [(r'^bias\|nano::linear::function_t \*', 'nv_part_view(self, {&0}, NV_ROLE_BIAS)'),
+                             (r'^weights\|nano::linear::function_t \*', 'nv_part_view(self, {&0}, NV_ROLE_WEIGHTS)'),
                              (r'^array\|', 'nv_e_of({self})'), (r'^(sign|abs|square)\|', 'nv_e_unary({*self})'), (r'^mean\|', 'nv_e_mean({*self})')]
     lcalls = VG_CALLS + [(r'^operator=\|nano::tensor_t<nano::tensor_marray_storage_t, double, [12]> &\(const tensor_t<nano::tensor_vector_storage_t, double, [12]UL> &\)', 'nv_part_assign({&0}, {&1})'),
                          (r'^operator\*\|', 'nv_e_scale({0}, {1})'), (r'^operator/\|', 'nv_e_div({0}, {1})'), (r'^operator\+=\|.*ArrayWrapper', 'nv_arr_add({0}, {1})'),
@@ -249,7 +249,11 @@ def vgrad_targets():
     sdo = Fn('scale_do_vgrad', GTU, 'do_vgrad', flt='scale_function_t::do_vgrad', **gcommon)
     gdo = Fn('grads_do_vgrad', GTU, 'do_vgrad', flt='grads_function_t::do_vgrad', **gcommon)
     ggr = lambda: Fn('grads_gradients', GTU, 'gradients', flt='grads_function_t::gradients', **gcommon)
-    return [Target('linear_do_vgrad', [ldo], H), Target('bias_do_vgrad', [bdo], H), Target('scale_do_vgrad', [sdo], H),
+    # the calls bias(.) / weights(.) of do_vgrad are replaced by the clause list PROVED for the accessors on back end B (parts_smt.clauses)
+    import parts_smt
+    cn = dict(isize='self->m_isize', tsize='self->m_tsize', wsize='nv_wsize', xsize='x->size')
+    pdefs = ['NV_FACTS_BIAS=' + parts_smt.c_facts('bias', 'nv_off', ['nv_d0'], cn), 'NV_FACTS_WEIGHTS=' + parts_smt.c_facts('weights', 'nv_off', ['nv_d0', 'nv_d1'], cn)]
+    return [Target('linear_do_vgrad', [ldo], H, defines=pdefs), Target('bias_do_vgrad', [bdo], H), Target('scale_do_vgrad', [sdo], H),
             Target('grads_do_vgrad', [gdo, ggr()], H, replace=['grads_gradients']), Target('grads_gradients', [ggr()], H)]
 
 
@@ -410,6 +414,16 @@ def build(tier):
         info = {'c_name': 'linear_do_vgrad_reg[generic]', 'cxx': 'linear::function_t::do_vgrad (regularisation part)', 'file': reg_smt.FILE, 'undecided': str(e)[:300]}
     vcs += v
     fns.append(info)
+    import parts_smt
+    try:
+        v, infos = parts_smt.vcs()
+    except (astload.ExtractionError, Exception) as e:
+        if not isinstance(e, astload.ExtractionError) and type(e).__name__ != 'Unsupported':
+            raise
+        v = [VC(f'linear_parts/not extracted: {str(e)[:160]}', '(check-sat)', solvers=['none'], about='weights / bias accessors: extraction failed')]
+        infos = [{'c_name': 'linear_parts', 'cxx': 'linear::function_t::weights / bias', 'file': parts_smt.HDR, 'undecided': str(e)[:300]}]
+    vcs += v
+    fns += infos
     return {
         'targets': targets, 'vcs': vcs, 'bounded': bounded, 'functions': fns,
         'decided': [
@@ -428,6 +442,8 @@ def build(tier):
             'select_iterator_t::loop, all 12 overloads + features_per_thread (functional contracts shared with specs/C18/functional.py): a chunk task [begin, end) invokes the operator exactly end - begin times, invocation k for the feature AT POSITION begin + k of the given list, with this task\'s tnum and the values dataset().select(samples, THAT feature, m_buffers[tnum].m_<kind>); loop(samples, features, op) maps once over [0, features.size()) in chunks of features_per_thread >= 1; loop(samples, feature, op) is one invocation with tnum 0; loop(samples, op) walks the feature list of the operator\'s kind with the caller\'s samples',
             'cache_targets / cache_flatten outer bodies (try / catch printed by the engine): the chunk task is mapped exactly once over ALL samples in chunks of batch(), after the cache was resized to one row per sample; true is returned only for a complete cache; no exception leaves the try block; on EVERY return path (allocation failure, throwing chunk task, size guard false) a cache with one row per sample holds the scaled rows of all samples, so that cached and uncached iteration deliver the same rows (the handler drops the cache: repaired defect, FINDING_failed_cache.md; refuted on the text before the repair; native driver replay/C09_failed_cache.cpp)',
             'setters targets_iterator_t::scaling(mode) / batch(n): store the argument and touch nothing else: an existing cache keeps the mode tag it was built under (FINDING_scaling_after_cache.md: stale rows, natively demonstrated; no library call site changes the mode after caching)',
+            'linear::function_t::weights / bias, const AND non-const overloads, for the three parameter-vector types (vector_t, vector_map_t, vector_cmap_t; 12 instantiations of drivers/inst_linear_parts.cpp, the 4 that do_vgrad calls are among them by mangled name) -- back end B over Int on the real header bodies (specs/C09/parts_smt.py): under x.size() == m_isize * m_tsize + m_tsize <= INT64_MAX and m_isize, m_tsize >= 0, weights(x) is the view of x at offset 0 with extents (tsize, isize), bias(x) the view of x at offset isize * tsize with tsize coefficients ending exactly at x.size(); the product m_isize * m_tsize does not overflow, data() + offset stays inside the vector, every view lies inside [0, size()).  Lemmas about the contract: the two ranges are adjacent and disjoint, together exactly [0, isize * tsize + tsize) == [0, size()); two views that satisfy the clauses of the same accessor (const / non-const overload, any vector type) are the same range',
+            'linear::function_t::do_vgrad (CBMC target linear_do_vgrad): the calls bias(.) / weights(.) are replaced by exactly the clause list proved for the accessors (NV_FACTS_BIAS / NV_FACTS_WEIGHTS generated from parts_smt.clauses; their precondition is an assertion at each call): the bias gradient m_gb1 of the reduced accumulator is stored into coefficients [isize * tsize, isize * tsize + tsize) == the LAST tsize coefficients of gx, the weights gradient m_gW1 into [0, isize * tsize); the regularisation value / gradient are computed from block [0, isize * tsize) of x and added to the same block of gx.  Data flow (clang declaration ids): the one linear::predict call of the chunk task receives W = weights(x) and b = bias(x) of the parameter vector (obligation predict_args).  The regularisation walkers (reg_smt / reg_generic) identify W / gW / b / gb by the accessor call that initialises them (alpha-renaming parts_smt.canon_do_vgrad), no longer by the local\'s name; W.rows() == tsize, W.cols() == isize used there is the proved clause weights_rows / weights_cols',
             'BOUNDED (|W| = 1, 2, 3; entries, l1, l2, loss symbolic reals): linear::function_t::do_vgrad returns loss + l1*mean|W| + (l2/2)*mean(W^2) and, when a gradient is requested, writes gW1 + l1*sign(W)/|W| + l2*W/|W| into the weights part of gx'],
         'not_decided': [
             'the loss values and their gradients (mean_i loss(t_i, W x_i + b), gboost bias/scale/grads objectives): numeric, Eigen kernels',
@@ -437,7 +453,8 @@ def build(tier):
             'inside cache_*: that pool_t::map tiles [0, samples) and rethrows a task\'s exception is C17\'s contract, represented by a stub (complete cache or exception); tensor resize (dims first, then allocation), the default-constructed tensor (0 rows) and the noexcept move assignment are assumed contracts read off include/nano/tensor/storage.h',
             'the products (columns + 1) * tsize, samples * tsize and the byte-count guard of cache_* are uninterpreted in the constructor / cache contracts (no overflow obligation); the asserts of the constructors (m_isize > 0, m_tsize > 0, dims of the strong / weak outputs) are compiled out (NDEBUG) and not obligations',
             'IEEE rounding in the regularisation terms (double treated as real); finite sums are known only through congruence + linearity (S2)',
-            'dataset_t::select / flatten / targets themselves (what the values of a feature are): C08'],
+            'dataset_t::select / flatten / targets themselves (what the values of a feature are): C08',
+            'weights / bias: that the Eigen / tensor map constructed by map_tensor(pointer, extents...) addresses coefficient (r, c) of the matrix view at pointer + r * cols + c (row-major layout of a tensor map: C16) and that W * x_i + b inside linear::predict uses this layout (numeric kernel); callers of the accessors other than do_vgrad (src/linear.cpp:42-43 reads the fitted model through the const overloads: covered by the accessor contracts, the call site itself is not under contract); x.size() == size() of the function at the call of do_vgrad is function_t::vgrad\'s assert (C06 / C01), here a precondition'],
         'assumptions': [
             'accumulators.size() >= 1 when sum_reduce / min_reduce are called: the vectors are sized with concurrency() == pool size >= 1 (C17 constructor postcondition)',
             'batch() >= 1: linear::batch and gboost::batch are registered with domain [10, 10000] (src/linear.cpp:54, src/gboost/model.cpp:202); m_batch defaults to 100; targets_iterator_t::batch(v) itself does not validate v',
@@ -449,7 +466,8 @@ def build(tier):
             'tnum < pool size (C17); that the per-thread buffers / accumulators have concurrency() == pool size entries is now PROVED at construction (ctor targets) -- what remains assumed is that the vectors are not resized between construction and use (no library function does)',
             'std::vector<T>(n) / (n, value) has n entries (copies of value); tensor_t(dims) / resize(dims) / vector_t::zero(n) have these dims (zero: zeroed); a default-constructed tensor has 0 rows; scalar_stats_t::make_*_stats(dataset, samples) are the statistics of these samples (C14); dataset.columns() < INT64_MAX; |W| = m_tsize * m_isize >= 1 in the generic regularisation VCs (the constructor asserts both positive; NDEBUG builds do not check it)',
             'STATED FACT S2 (specs/C06/poly.py): a finite sum of a polynomial summand is the linear combination of its monomial sums (used for sum_k (sqrt(l2) W_k)^2 = sqrt(l2)^2 sum_k W_k^2); Q1: sqrt(u) >= 0 and sqrt(u)^2 == u for u >= 0',
-            'sum_reduce inside do_vgrad is represented by a symbolic reduced accumulator in the regularisation VCs (its protocol is the subject of the sum_reduce targets)'],
+            'sum_reduce inside do_vgrad is represented by a symbolic reduced accumulator in the regularisation VCs (its protocol is the subject of the sum_reduce targets)',
+            'weights / bias accessors: the asserted precondition x.size() == m_isize * m_tsize + m_tsize (compiled out under NDEBUG; in linear_do_vgrad an ASSERTION at every accessor call, discharged from do_vgrad\'s own asserts x.size() == (m_isize + 1) * m_tsize and gx.size() in {0, x.size()}, which are preconditions of that target); size bound: x.size() is a tensor_size_t (<= INT64_MAX); m_isize >= 0, m_tsize >= 0 (constructor: dataset.columns(), size(target_dims)); x.data() points to coefficient 0 of a buffer of x.size() coefficients and map_tensor(p, extents...) is the view (p, extents) (assumed contracts of tensor storage / map construction, C16); in the CBMC target the product m_tsize * m_isize is the uninterpreted nv_prod2(m_tsize, m_isize) (congruence only)'],
         'trusted': [],
     }
 
